@@ -46,6 +46,15 @@ def run(ctx: Any, prog: Program) -> None:
     ctx.not_decided += ['sufficiency of the maintenance rules for every history (e.g. an entity added to two maps, or added twice)',
                         'iteration-order effects of CopySet']
     ctx.rule('C07.I1', 'every mutation of by_class/by_target uses a casefolded key (by_target: '' mapped to None)', floor=12)
+    # module-level helpers of the form `f(mapping, key, ent)` that add `ent` to `mapping[key]` (the twin of _remove_copyset)
+    add_helpers: Set[str] = set()
+    for hq_, hfl_ in vm.all_funcs().items():
+        if '.' in hq_ or len(hfl_) != 1 or len(hfl_[0].args.args) != 3:
+            continue
+        pm_, pk_, pe_ = (a.arg for a in hfl_[0].args.args)
+        if any(isinstance(c, ast.Call) and isinstance(c.func, ast.Attribute) and c.func.attr == 'add' and c.args and dotted(c.args[0]) == pe_ for c in ast.walk(hfl_[0])) \
+                and any(isinstance(x, ast.Subscript) and dotted(x.value) == pm_ and dotted(x.slice) == pk_ for x in ast.walk(hfl_[0])):
+            add_helpers.add(hq_)
     ctx.rule('C07.I2', 'Entity._keys is mutated only by __init__/__setitem__/__delitem__', floor=4)
     ctx.rule('C07.I3', 'index maintenance: remove-old-first, guarded add, list and indexes updated together', floor=10)
     ctx.rule('C07.I4', 'worldspawn is registered, cannot be re-classed and its classname cannot be deleted', floor=4)
@@ -54,6 +63,26 @@ def run(ctx: Any, prog: Program) -> None:
     ctx.rule('C07.I8', 'the case-preserving key store is only addressed with a stored spelling (search-loop variable) or inside the no-match branch', floor=6)
     ctx.rule('C07.I6', 'replacing VMF.spawn unregisters the previous spawn from both indexes', floor=1)
 
+    # ---- I1 (the two indexes create the set they are asked for): `by_target[k].add(e)` relies on the mapping *storing* the set it makes for a
+    # missing key (defaultdict).  A mapping whose __missing__ returns a fresh set without storing it turns every such add into a no-op.
+    vinit = vm.func('VMF.__init__')
+    for idx_nm in ('by_class', 'by_target'):
+        ctor = [a.value for a in walk_no_nested(vinit) if isinstance(a, (ast.Assign, ast.AnnAssign)) and a.value is not None and any(dotted(t) == f'self.{idx_nm}' for t in (a.targets if isinstance(a, ast.Assign) else [a.target]))]
+        if len(ctor) != 1 or not isinstance(ctor[0], ast.Call):
+            ctx.shape('C07.I1', False, vm, vinit, f'construction of VMF.{idx_nm} not recognised', func='VMF.__init__', text=f'{idx_nm} stores the sets it creates')
+            continue
+        cn_ = dotted(ctor[0].func) or ''
+        if cn_.split('.')[-1] == 'defaultdict':
+            ctx.check('C07.I1', True, vm, ctor[0], 'defaultdict stores what its factory makes', func='VMF.__init__', text=f'{idx_nm} stores the sets it creates')
+        elif vm.has_class(cn_):
+            miss = vm.methods(cn_).get('__missing__')
+            stores_ = miss is not None and any(isinstance(x, ast.Subscript) and isinstance(x.ctx, ast.Store) and isinstance(x.value, ast.Name) and x.value.id == miss.args.args[0].arg for x in ast.walk(miss))
+            direct_adds = [n for q_, fl_ in vm.all_funcs().items() for f_ in fl_ for n in walk_no_nested(f_) if isinstance(n, ast.Call) and isinstance(n.func, ast.Attribute) and n.func.attr == 'add'
+                           and isinstance(n.func.value, ast.Subscript) and index_of(n.func.value.value) == idx_nm]
+            ctx.check('C07.I1', stores_ or not direct_adds, vm, direct_adds[0] if direct_adds else ctor[0], f'VMF.{idx_nm} is a {cn_} whose __missing__ does not store the set it returns, and `{U(direct_adds[0])[:60] if direct_adds else ""}` '
+                      'still adds through a subscript: when the key is not there yet the entity goes into a throwaway set and is in no index entry', func='VMF.__init__', text=f'{idx_nm} stores the sets it creates')
+        else:
+            ctx.shape('C07.I1', False, vm, ctor[0], f'VMF.{idx_nm} is built by `{U(ctor[0])[:40]}`', func='VMF.__init__', text=f'{idx_nm} stores the sets it creates')
     # ---- I1 (package-wide) -----------------------------------------------------------------------------
     for modname in prog.module_names():
         mod = prog.module(modname)
@@ -72,6 +101,17 @@ def run(ctx: Any, prog: Program) -> None:
                                   f'{idx}[...] is mutated with key `{U(k)}` which is not in the index normal form '
                                   f'({"casefolded" if idx == "by_class" else "casefolded, empty -> None"}); the entry goes stale / is filed under a key lookups never use',
                                   func=qual, text=f'{idx}[{U(k)}].{n.func.attr}')
+                        # in the map's own methods the key is what the entity itself holds (`item['classname', '']`): an entity filed under a
+                        # value taken from somewhere else (the arguments of create_ent) is under another key than its keyvalue says whenever the
+                        # two differ (`TargetName=`, a float that is stored as '12' and indexed as '12.0')
+                        if n.func.attr == 'add' and n.args and isinstance(n.args[0], ast.Name) and qual.startswith('VMF.') and not isinstance(k, ast.Constant):
+                            ent_nm = n.args[0].id
+                            reads_ent = any(isinstance(x, ast.Name) and x.id == ent_nm for x in ast.walk(k))
+                            if not reads_ent:
+                                # through a local assigned from the entity
+                                reads_ent = any(isinstance(x, ast.Name) and any(isinstance(y, ast.Name) and y.id == ent_nm for d_ in env.defs.get(x.id, []) for y in ast.walk(d_)) for x in ast.walk(k))
+                            ctx.check('C07.I1', reads_ent, mod, n, f'{qual} files `{ent_nm}` under `{U(k)[:60]}`, which is not read from `{ent_nm}` itself: when the stored keyvalue differs from that value the entity sits under '
+                                      'the wrong key (and stays there after a rename)', func=qual, text=f'{idx} key of {ent_nm} read from the entity')
                     # _remove_copyset(X.by_*, K, e)
                     elif isinstance(n, ast.Call) and dotted(n.func) == '_remove_copyset' and len(n.args) == 3 and index_of(n.args[0]):
                         idx = index_of(n.args[0])
@@ -193,6 +233,9 @@ def run(ctx: Any, prog: Program) -> None:
         for c in calls:
             if name.startswith('add') and isinstance(c.func, ast.Attribute) and c.func.attr == 'add' and isinstance(c.func.value, ast.Subscript) and index_of(c.func.value.value):
                 touched.add(index_of(c.func.value.value))
+            # ... or through a module-level helper `f(<index>, key, ent)` that does the add
+            if name.startswith('add') and isinstance(c.func, ast.Name) and c.func.id in add_helpers and c.args and index_of(c.args[0]):
+                touched.add(index_of(c.args[0]))
             if name == 'remove_ent' and dotted(c.func) == '_remove_copyset' and index_of(c.args[0]):
                 touched.add(index_of(c.args[0]))
         ctx.check('C07.I3', has_list and touched == set(INDEXES), vm, fn,
@@ -279,7 +322,9 @@ def run(ctx: Any, prog: Program) -> None:
     src = [U(s) for s in walk_no_nested(init) if isinstance(s, (ast.Assign, ast.Expr))]
     ok = any(s.replace('"', "'") == "self.spawn['classname'] = 'worldspawn'" for s in src)
     ctx.check('C07.I4', ok, vm, init, "VMF.__init__ must set self.spawn['classname'] = 'worldspawn' (registers it in by_class)", text='spawn classname registered')
-    ok = any(s == 'self.by_target[None].add(self.spawn)' for s in src)
+    ok = any(s == 'self.by_target[None].add(self.spawn)' for s in src) or any(
+        isinstance(c, ast.Call) and isinstance(c.func, ast.Name) and c.func.id in add_helpers and len(c.args) == 3 and index_of(c.args[0]) == 'by_target' and isinstance(c.args[1], ast.Constant) and c.args[1].value is None
+        and dotted(c.args[2]) == 'self.spawn' for c in ast.walk(init))
     ctx.check('C07.I4', ok, vm, init, 'VMF.__init__ must register the spawn in by_target[None]', text='spawn target registered')
     si = ent_methods['__setitem__']
     ok = False
@@ -420,6 +465,7 @@ def run(ctx: Any, prog: Program) -> None:
 
 
 MUTANTS = [
+    {'id': 'create_ent_indexes_from_arguments', 'file': 'vmf.py', 'find': "        ent = Entity(self, keys=kargs)\n        self.add_ent(ent)\n", 'replace': "        ent = Entity(self, keys=kargs)\n        self.entities.append(ent)\n        self.by_class[classname.casefold()].add(ent)\n        self.by_target[str(kargs.get('targetname', '')).casefold() or None].add(ent)\n", 'expect': 'C07.I1'},
     {'id': 'delitem_adds_before_removing', 'file': 'vmf.py', 'find': "        if key == 'targetname':\n            _remove_copyset(self.map.by_target, self['targetname'].casefold() or None, self)\n            if self in self.map.entities or self is self.map.spawn:\n                self.map.by_target[None].add(self)\n", 'replace': "        if key == 'targetname':\n            old_name = self['targetname'].casefold() or None\n            if self in self.map.entities or self is self.map.spawn:\n                self.map.by_target[None].add(self)\n            _remove_copyset(self.map.by_target, old_name, self)\n", 'expect': 'C07.I3'},
     {'id': 'setitem_returns_when_value_unchanged', 'file': 'vmf.py', 'find': "        # TODO: if 'mapversion' is passed and self is self.map.spawn, update version there.\n", 'replace': "        if orig_val == str_val:\n            return\n        # TODO: if 'mapversion' is passed and self is self.map.spawn, update version there.\n", 'expect': 'C07.I3'},
     {'id': 'search_classname_only_if_no_targetname', 'file': 'vmf.py', 'find': "            if name in list(self.by_class):\n                yield from self.by_class[name]", 'replace': "            yield from (self.by_target.get(name) or self.by_class.get(name) or ())", 'expect': 'C07.I9'},
